@@ -18,6 +18,8 @@ open Proto Params
       view <names> <gflp>                  -> <views from the caches> ## <views from the bare list>
       probe <values>                       -> name=<A|R per value>,... from setValue ## from Spec.accepts
       pview <gflp> <sel N|-|i,j>           -> mapper views
+      pview2 <gflp> <names> <model idxs>   -> gpidx consumers, floating mask of local names, NaN fill,
+                                              wrong-length vectors, int32 index array, dict by model name
 -/
 
 inductive St
@@ -139,6 +141,44 @@ def fPMM (s : PMM Float) (g : List Float) (sel : Option (List Nat)) : String :=
     (List.range s.nModels).map (fun i =>
       s!"md{i}:" ++ fEx (fun d => fDict d) (s.modelParamsDict g i)))
 
+def fBits (bs : List Bool) : String := if bs.isEmpty then "-" else String.join (bs.map fB)
+
+def nanF : Float := 0.0 / 0.0
+
+/-- further mapper views (all with `sources=None` unless stated):
+`pview2 <gflp> <names> <idxs>` -/
+def fPMM2 (s : PMM Float) (g : List Float) (names : List String) (idxs : List Nat) : String :=
+  let fields := s.srcFieldNames
+  let nfl := s.gps.floatNames.length
+  let ks := List.range nfl
+  let recE := s.srcParamsRecarray g none
+  let fitloc := match recE with
+    | .error e => fErr e
+    | .ok rec => sl (fields.map (fun f =>
+        s!"{f}={fBits (ks.map (fun k => PMM.isGlobalFitparamALocalParam k rec [f]))}/" ++
+          fEx fB (PMM.isLocalParamAFitparam f rec)))
+  let fitall := match recE with
+    | .error e => fErr e
+    | .ok rec => fBits (ks.map (fun k => PMM.isGlobalFitparamALocalParam k rec ("zz" :: fields)))
+  let tabOf (r : Except Err (PMM.RecArray Float)) : String := fEx (fun t => fRows t.1 t.2) r
+  let wrong (gg : List Float) : String :=
+    (match s.srcParamsRecarray gg none with | .ok _ => "A" | .error _ => "R") ++
+    (match s.modelParamsDict gg 0 with | .ok _ => "A" | .error _ => "R")
+  String.intercalate " " ([
+    "mfields:" ++ sl s.modelFieldNames,
+    "fitloc:" ++ fitloc,
+    "fitall:" ++ fitall,
+    "fpzz:" ++ (match recE with
+      | .error e => fErr e
+      | .ok rec => fEx fB (PMM.isLocalParamAFitparam "zz" rec)),
+    "lpfl:" ++ sl ((names.zip (s.localParamIsGlobalFloatingMask names)).map (fun nb => s!"{nb.1}={fB nb.2}")),
+    "tabnone:" ++ tabOf (PMM.srcParamsRecarrayNone nanF s none),
+    "wshort:" ++ (if g.isEmpty then "-" else wrong g.dropLast),
+    "wlong:" ++ wrong (g ++ [9.0]),
+    "tabidx:" ++ tabOf (s.srcParamsRecarrayIdx g idxs) ] ++
+    s.models.map (fun m => s!"mdn_{m.1}:" ++ fEx fDict (s.modelParamsDictByName g m.1)) ++
+    [ "mdn_zz:" ++ fEx fDict (s.modelParamsDictByName g "zz") ])
+
 def fProbe (ps : List (Param Float)) (rows : List (List Bool)) : String :=
   sl ((ps.zip rows).map (fun pr => pr.1.name ++ "=" ++ String.join (pr.2.map (fun (b : Bool) => if b then "A" else "R"))))
 
@@ -163,6 +203,8 @@ def stepLine (stack : List St) (line : String) : List St × String :=
       (stack, fProbe s.gps.params (s.gps.probe (pList pF xs)) ++ " ## " ++
               fProbe s.gps.params (Spec.probe s.gps.params (pList pF xs)))
   | ["pview", g, sel], St.pmm s :: _ => (stack, fPMM s (pList pF g) (pSel sel))
+  | ["pview2", g, names, idxs], St.pmm s :: _ =>
+      (stack, fPMM2 s (pList pF g) (pList id names) (pList pN idxs))
   | _, top :: rest =>
       match pOp toks with
       | none => (stack, "bad-op")
